@@ -11,7 +11,7 @@ COQ_FILES = ["Corr/Run_FrrK8s.v"]
 PKG = "internal/bgp/frrk8s"
 EXTRA_ROUTES = ["203.0.113.0/24", "2001:db8:ffff::/48"]
 F15 = "k8s-unnumbered-disablemp-no-activation"
-F19 = "k8s-source-address-dropped"
+F24 = "k8s-source-address-dropped"
 
 KINDS = {1: "Model/FrrK8s.k8s_render differs from the FRRConfiguration produced by updateConfig",
          2: "k8s_render of the permuted session set differs",
@@ -130,7 +130,7 @@ def oracle(ctx, case):
         if bad:
             ctx.oracle_fail("k8s-params-mismatch", "neighbor %s vrf %r: %s differ: configuration %r, session %r" % (fp.peer_tok(s), s["vrf"], bad, {k: n[k] for k in e}, e), rep)
         if n["source"] != s["src"]:
-            sig = F19 if (s["src"] and not n["source"]) else "k8s-params-mismatch"
+            sig = F24 if (s["src"] and not n["source"]) else "k8s-params-mismatch"
             ctx.oracle_fail(sig, "neighbor %s vrf %r: source address %r, session has %r" % (fp.peer_tok(s), s["vrf"], n["source"], s["src"]), rep)
         if n["password"] and (n["secret_name"] or n["secret_ns"]):
             ctx.oracle_fail("k8s-password-and-secret", "neighbor %s carries a password and a secret reference" % fp.peer_tok(s), rep)
